@@ -254,6 +254,29 @@ func c02(p *Prog, r *Report) {
 		}
 	}
 
+	// R8: a batch of evaluated elements is accepted on the strength of ONE
+	// batched DLEQ proof. That is sound only if the batching weights bind the
+	// whole batch, or the batch is too small for a k-list attack.
+	const R8 = "C02.batched-proof-binds-the-batch"
+	r.Rule(R8, "type 5: the dependency's per-element batching weights depend on the whole batch (over-approximate dependence slice of the HashToScalar input in the composites computation), or FinalizeTokens bounds the batch to at most 2 elements", 1)
+	if fn := anchor(p, r, R8, "(~/tokens/type5.BatchedPrivateTokenRequestState).FinalizeTokens"); fn != nil {
+		cc := p.Func("(github.com/cloudflare/circl/zk/dleq.Params).computeComposites")
+		key := shortName(fn) + " | batched DLEQ weights | unbounded batch"
+		if cc == nil {
+			r.Fail(R8, key, p.Pos(fn.Pos()), "unresolved anchor: (circl/zk/dleq.Params).computeComposites not found - the rule no longer sees how the batching weights are derived")
+		} else {
+			indep, detail := weightsIndependentPerElement(p, cc)
+			switch {
+			case !indep:
+				r.OK(R8, key, p.Pos(cc.Pos()), "weights bind the batch, or undecided in the safe direction: "+detail)
+			case batchBounded(p, fn, 2):
+				r.OK(R8, key, p.Pos(fn.Pos()), "weights are independent per element, but the batch is bounded to at most 2 elements")
+			default:
+				r.Fail(R8, key, p.Pos(fn.Pos()), "the batching weights of the DLEQ proof are independent per element ("+detail+") and FinalizeTokens accepts batches of any size: an issuer can choose, slot by slot, evaluated elements with error terms whose weighted sum cancels (a k-list problem: about 2^31 hash evaluations for 8192 elements) - the proof verifies and the client returns tokens none of which verifies")
+			}
+		}
+	}
+
 	// R6: a request state answers every response the same way: finalization
 	// may not write memory reached through the state (a second response for the
 	// same request - after a rejected one, or a replay - would otherwise be
